@@ -44,6 +44,13 @@ FAMILIES = {
     "RX": dict(BASE, Tenants=["t1"], Providers=["p1"], Auditors=[], DSeqs=[1, 2], GSeqs=[1], OSeqs=[1],
                GroupChoices="GroupChoicesRX", DepositChoices=[3], PriceChoices=[1], AmountChoices=[], AttrChoices="AttrChoicesRX",
                Versions=[1], Gaps=[], InitCoins=8, MaxHeight=1),
+    # exhaustive, small (quick tier): one provider x two order generations / two providers x one order generation
+    "SQ1": dict(BASE, Tenants=["t1"], Providers=["p1"], Auditors=[], DSeqs=[1], GSeqs=[1], OSeqs=[1, 2],
+                GroupChoices="GroupChoicesS", DepositChoices=[2, 3], PriceChoices=[1, 2], AmountChoices=[1],
+                Versions=[1], Gaps=[1, 2], InitCoins=4, MaxHeight=4),
+    "SQ2": dict(BASE, Tenants=["t1"], Providers=["p1", "p2"], Auditors=[], DSeqs=[1], GSeqs=[1], OSeqs=[1],
+                GroupChoices="GroupChoicesS", DepositChoices=[2], PriceChoices=[1, 2], AmountChoices=[1],
+                Versions=[1], Gaps=[1, 2], InitCoins=3, MaxHeight=4),
     # exhaustive: every state and every transition of this bounded model is visited by TLC
     "SX": dict(BASE, Tenants=["t1"], Providers=["p1", "p2"], Auditors=[], DSeqs=[1], GSeqs=[1], OSeqs=[1, 2],
                GroupChoices="GroupChoicesS", DepositChoices=[2], PriceChoices=[1], AmountChoices=[1],
@@ -64,12 +71,12 @@ ESCROW_FAMILIES = {
 FAMILIES.update(ESCROW_FAMILIES)
 
 # which families matter for which property (quick tier); thorough runs all of them
-QUICK = {"C01": ["SX", "A", "E"], "C02": ["E", "A"], "C03": ["SX", "S", "E"], "C04": ["SX", "A"], "C05": ["SX", "S"],
-         "C06": ["B", "S"], "C07": ["R", "S"], "C08": ["RX", "R"], "C16": ["SX", "R"]}
-EXHAUSTIVE = {"SX", "RX", "E", "E3"}
+QUICK = {"C01": ["SQ1", "SQ2", "A", "E"], "C02": ["E", "A", "SQ1"], "C03": ["SQ1", "SQ2", "S", "E"], "C04": ["SQ1", "SQ2", "A"],
+         "C05": ["SQ1", "SQ2", "S"], "C06": ["B", "S", "SQ2"], "C07": ["R", "SQ1"], "C08": ["RX", "R"], "C16": ["SQ1", "SQ2", "R"]}
+EXHAUSTIVE = {"SX", "SQ1", "SQ2", "RX", "E", "E3"}
 PAR = max(2, min(8, vlib.NCPU // 2))     # concurrent harness processes / J3 JVMs
-NODE_CAP_QUICK = 9000
-NODE_CAP_THOROUGH = 150000
+NODE_CAP_QUICK = 80000
+NODE_CAP_THOROUGH = 400000
 J1_INVS = "InvC01 InvC02 InvC03 InvC04 InvC05"
 J1_PROPS = "StepC01 StepC02 StepC03 StepC06 StepC08"
 
@@ -90,7 +97,7 @@ def escrow_cfg(fam, sim, depth):
     lines.append("  MaxHeight = %d" % (1000 if sim else c["MaxHeight"]))
     lines.append("  MaxSteps = %d" % (depth if sim else 80))
     lines.append("  OnlyOK = %s" % ("TRUE" if sim else "FALSE"))
-    lines.append("INVARIANTS InvC01 InvC02 InvC03 ExportNode")
+    lines.append("INVARIANTS InvC01 InvC02 InvC03 %s" % ("ExportNode" if sim else "ExportNodeEdges"))
     lines.append("PROPERTIES StepC01 StepC02 StepC03 StepC06")
     lines.append("CHECK_DEADLOCK FALSE")
     return "\n".join(lines) + "\n"
@@ -112,7 +119,7 @@ def mc_cfg(fam, sim, depth):
     lines.append("  MaxHeight = %d" % (1000 if sim else c["MaxHeight"]))
     lines.append("  MaxSteps = %d" % (depth if sim else 60))
     lines.append("  OnlyOK = %s" % ("TRUE" if sim else "FALSE"))
-    lines.append("INVARIANTS %s ExportNode" % J1_INVS)
+    lines.append("INVARIANTS %s %s" % (J1_INVS, "ExportNode" if sim else "ExportNodeEdges"))
     lines.append("PROPERTIES %s" % J1_PROPS)
     lines.append("CHECK_DEADLOCK FALSE")
     return "\n".join(lines) + "\n"
@@ -129,21 +136,28 @@ def trace_cfg(fam, which):
     return t.replace("BIDMINDEP", str(c["BidMinDeposit"])).replace("MINDEP", str(c["MinDeposit"]))
 
 
-_LINE = re.compile(r'^<<"(NODE|ALPHABET)", "(.*)">>$')
+_LINE = re.compile(r'^<<"(NODE|ALPHABET)", "(.*?)"(?:, "OK", "(.*)")?>>$')
+
+
+def _unq(t):
+    return t.replace('\\"', '"').replace("\\\\", "\\")
 
 
 def parse_export(out):
-    nodes, alpha = set(), None
+    """NODE lines -> path lines for the harness: a JSON array (path) or {"p": path, "x": successful actions there}."""
+    nodes, alpha = {}, None
     for line in out.splitlines():
         m = _LINE.match(line)
         if not m:
             continue
-        js = m.group(2).replace('\\"', '"').replace("\\\\", "\\")
+        js = _unq(m.group(2))
         if m.group(1) == "ALPHABET":
             alpha = json.loads(js)
+        elif m.group(3) is not None:
+            nodes[js] = '{"p":%s,"x":%s}' % (js, _unq(m.group(3)))
         else:
-            nodes.add(js)
-    return sorted(nodes, key=lambda s: (len(s), s)), alpha
+            nodes.setdefault(js, js)
+    return [nodes[k] for k in sorted(nodes, key=lambda s: (len(s), s))], alpha
 
 
 def j1(fam, sim, seed, num, depth, timeout):
@@ -278,9 +292,9 @@ def run(pid, tier, seed, replay):
     else:
         for f in QUICK[pid]:
             if f in EXHAUSTIVE:
-                plans.append((f, False, 0, 0, 300))    # exhaustive J1; the alphabet is replayed at a seeded sample of its states
+                plans.append((f, False, 0, 0, 800))    # exhaustive J1; the alphabet is replayed at a seeded sample of its states
             else:
-                plans.append((f, True, 64, 26, 160))
+                plans.append((f, True, 64, 26, 240))
     cov = dict(states=0, transitions=0, traces_validated_against_impl=0, evaluations=0, drift_steps=0, configs=[],
                samples=[], exhaustive=False)
     distinct = set()
